@@ -42,6 +42,10 @@ PRODS = [(f"attr.{n}", "({0})." + n, 1) for n in POOL] + [
 LEGAL_CONST = (str, int, float, bool, complex, bytes)
 
 
+DIAG_PARENTS = ("add", "sub", "mul", "div", "mod", "and", "or", "gt", "eq", "ifexp", "tuple2", "list2", "dict2")
+DIAG_CHILDREN = ("gt", "eq", "not", "and", "neg", "add", "div", "leaf:1", "leaf:1.5", "leaf:'s'", "leaf:True", "tuple2", "dict2")
+
+
 def fill(tpl, kids):
     return tpl.format(*kids)
 
@@ -69,6 +73,21 @@ def gen_sources(depth3_reps):
                 s = fill(tpl, kids)
                 d2[(name, slot, cname)] = s
                 out.setdefault(s, ("d2", f"{name}[{slot}]<-{cname}"))
+    # every slot filled with the SAME child (operators whose treatment depends on both operands agreeing)
+    d2same = {}
+    for name, tpl, k in PRODS:
+        if k >= 2:
+            for cname, csrc in d1.items():
+                s = fill(tpl, [csrc] * k)
+                d2same[(name, cname)] = s
+                out.setdefault(s, ("d2", f"{name}[all]<-{cname}"))
+    for name, tpl, k in PRODS:
+        for slot in range(k):
+            for (cname, gname), csrc in d2same.items():
+                if cname in DIAG_PARENTS and gname in DIAG_CHILDREN:
+                    kids = ["e.x"] * k
+                    kids[slot] = csrc
+                    out.setdefault(fill(tpl, kids), ("d3", f"{name}[{slot}]<-{cname}[all]<-{gname}"))
     reps = [p for p in PRODS if p[0] in depth3_reps]
     for (name, slot, cname), _ in list(d2.items()):
         ctpl, ck = next((t, k) for n, t, k in allp if n == cname)
@@ -114,7 +133,15 @@ def _kind(n):
     if isinstance(n, ast.List):
         return "list"
     if isinstance(n, ast.Dict):
-        return "dict"
+        # a record: same keys in the same order with the same kinds of values = the same type
+        keys = [k.value if isinstance(k, ast.Constant) else None for k in n.keys]
+        if None in keys or len(set(map(repr, keys))) != len(keys):
+            return f"dict#{id(n)}"  # no statement about such a literal's type: never equal to another
+        return "dict{" + ",".join(f"{k!r}:{_kind(v)}" for k, v in zip(keys, n.values)) + "}"
+    if isinstance(n, ast.BinOp):
+        a, b = _kind(n.left), _kind(n.right)
+        if a in ("bool", "int") and b in ("bool", "int") and isinstance(n.op, (ast.Add, ast.Sub, ast.Mult)):
+            return "int"  # Python: arithmetic on truth values and ints gives an int
     return "other"
 
 
